@@ -233,7 +233,8 @@ func c06Run(c *fw.Ctx) {
 	// Two upstreams with different rules behind one proxy: hostA admits an email domain, hostB a group.
 	// A complete honest flow (start and callback, same headers) x user x what the authenticator's
 	// profile endpoint answers at that moment x a client-supplied header naming the other upstream.
-	yr := "- service: svca\n  default:\n    from: " + hostA + "\n    to: {{backend:a}}\n    options:\n      allowed_email_domains:\n        - corp.test\n" +
+	// (the domain list is hand-written with a stray blank entry and an empty one)
+	yr := "- service: svca\n  default:\n    from: " + hostA + "\n    to: {{backend:a}}\n    options:\n      allowed_email_domains:\n        - corp.test\n        - ' '\n        - ''\n" +
 		"- service: svcg\n  default:\n    from: " + hostB + "\n    to: {{backend:b}}\n    options:\n      allowed_groups:\n        - eng\n"
 	er, err := harness.NewProxyEnv(harness.ProxyOpts{YAML: yr, Backends: []string{"a", "b"}, TemplateVars: map[string]string{}})
 	if err != nil {
@@ -419,7 +420,7 @@ func init() {
 		Level: "exploration",
 		Rule: "(callback) four real flows started through the proxy (A, A' = the same URL started a second time, A'' = another page started by a browser still carrying A's CSRF cookie, B on another upstream host) crossed with every combination of state {absent, garbage, state_A, state_A', state_B, cookie_A as state, re-encoded cookie_A, sealed under another key} x CSRF cookie {a session value sealed by this proxy (not a flow record), absent, garbage, cookie_A, cookie_A', cookie_B, state_A as cookie} x code {absent, redeemable allowed user, the same with tokens so long that the sealed session exceeds 4096 bytes, redeemable denied user, rejected, authenticator 503} x error {absent, set} x Host {A, B}; " +
 			"(target) every origin-form request target built from segments {a, empty, ., .., %2f, %5c, backslash, evil.test, @evil.test, %2e%2e, ;x} to depth 2 (quick) / 3 (thorough) x {no query, query naming another authority, fragment naming another authority}, plus absolute-form targets naming the upstream's own host, sent as raw bytes; each started flow is completed honestly. " +
-			"(rules) two upstreams with different rules (an email domain; a group) behind one proxy: a complete honest flow x Host {2} x user {4: passes both, domain only, group only, neither} x the authenticator's profile answer at that moment {200, 429, 503, 500, reset, 200 not JSON} x a client header naming the other upstream {none, X-Forwarded-Host, X-Original-Host, Forwarded}: a session is set only for a user passing the rule of the upstream serving the request Host (for a group rule: the profile endpoint answered and listed an allowed group), bound to that Host. " +
+			"(rules) two upstreams with different rules (an email domain, in a list that also has blank entries; a group) behind one proxy: a complete honest flow x Host {2} x user {4: passes both, domain only, group only, neither} x the authenticator's profile answer at that moment {200, 429, 503, 500, reset, 200 not JSON} x a client header naming the other upstream {none, X-Forwarded-Host, X-Original-Host, Forwarded}: a session is set only for a user passing the rule of the upstream serving the request Host (for a group rule: the profile endpoint answered and listed an allowed group), bound to that Host. " +
 			"Oracle ('only when'): session cookie set => state and cookie both sealed by this proxy, different ciphertexts, equal flow records, code redeemed for a user that passes the rules, no error parameter; session bound to the request Host; Location = recorded URI and resolves to the same host under an RFC 3986 reading and a browser-style reading. " +
 			"distinct_nontrivial = distinct (state, cookie, code, error, host, status, session set) and (target class, same host) signatures",
 		Assumptions:    []string{"the browser-style reading is a simplified WHATWG parser (C0/space stripping, TAB/LF/CR removal, backslash as slash, scheme case folding, slash-count tolerance)"},
